@@ -757,7 +757,7 @@ Section IntraP.
     Proof.
       intros ((bl & Sh & Lb & _) & Hd & _ & Hb & _). unfold node_depth_ok, packed_ok. rewrite Sh. split.
       - apply canon_node_depth_ok.
-      - apply canon_packed_ok. rewrite Hd, Lb. destruct CAP as [_ C2].
+      - apply canon_packed_ok. rewrite Hd, Lb. pose proof CAP as C2. unfold capacity_ok in C2.
         pose proof (cap_list_depth capN C2) as C3. lia.
     Qed.
     Lemma hinv_with_tree h l t' : hinv ek M capN uinv h l -> shape t' = shape (htree h) ->
